@@ -291,7 +291,7 @@ LITS = [0, -1, 'a', 'a.b', "q'\"", 'back\\slash', '', None, 1.5, True, (1, 2), (
         slice(None, None, -1), len, b'x', frozenset([1]), T['n'], S.v, 1, 1.0, False, 0.0]
 CALLS = [((), {}), ((1, 'x'), {}), ((), {'k': None}), ((T['a'], [1, T.b]), {'z': (1,)}), ((len,), {})]
 ATTRS = ['a', 'b_c', '_p']
-DUNDERISH = ['priv', 'v_', 'init__']
+DUNDERISH = ['priv', 'v_', 'doc__']
 NSTEPS = len(LITS) + len(ATTRS) + 4 + len(CALLS) + len(DUNDERISH)
 
 
